@@ -14,8 +14,31 @@ case "$ID" in
   C13) TARGETS="argv_bytes template_fn render_any zerv_ron_stdin" ;;
   C15) TARGETS="template_fn" ;;
   C16) TARGETS="sanitize" ;;
-  *) echo "FUZZ_EXECS 0"; exit 0 ;;
+  *) TARGETS="" ;;
 esac
+# generator-driven campaigns (DESIGN.md 7.2): the in-process sub-checks of the property, run by
+# the one target `gen_driven` with the libFuzzer input as the random source of the sub-check's own
+# proptest strategy and the sub-check's own oracle as the verdict
+case "$ID" in
+  C01) GD="render-valid flow-valid" ;;
+  C03) GD="flow-bounds commit-monotone prerelease-tag-fixed prerelease-tag-monotone" ;;
+  C04) GD="flow-model hash-lengths" ;;
+  C05) GD="bump-model" ;;
+  C06) GD="render-model smart-tier smart-tier-abstract" ;;
+  C07) GD="canon-roundtrip canon-semver-u64 pep-roundtrip semver-to-pep-fixed out-of-range" ;;
+  C08) GD="grammar-mutants check-report" ;;
+  C09) GD="spellings grammar-mutants check-report" ;;
+  C10) GD="rand-pairs rand-triples max-tag" ;;
+  C11) GD="rand-pairs rand-triples max-tag" ;;
+  C12) GD="roundtrip one-rule-broken malformed-documents" ;;
+  C13) GD="argv-fuzz" ;;
+  C15) GD="context-vs-renderer function-contracts template-valued-flags literal-context" ;;
+  C16) GD="rand-unicode presets template-fn" ;;
+  C17) GD="rand-instants cli-calver" ;;
+  *) GD="" ;;
+esac
+[ -n "${VERIF_NO_GD:-}" ] && GD=""
+if [ -z "$TARGETS" ] && [ -z "$GD" ]; then echo "FUZZ_EXECS 0"; exit 0; fi
 export CARGO_NET_OFFLINE=true
 TD="$ROOT/.cache/target-fuzz"
 ( cd "$ROOT/harness/fuzz" && cargo +nightly fuzz build -s none --fuzz-dir . --target-dir "$TD" >"$ROOT/.cache/build-fuzz.log" 2>&1 ) || { tail -20 "$ROOT/.cache/build-fuzz.log"; echo "INFRA: fuzz build failed"; exit 2; }
@@ -34,9 +57,58 @@ run_one() {
       -artifact_prefix="$work/artifacts/" -print_final_stats=1 $dict >"$work/log" 2>&1 </dev/null )
   echo $? > "$work/status"
 }
+GDRUNS="${VERIF_GD_RUNS:-$((RUNS / 8))}"
+run_gd() {
+  sub="$1"
+  work="$ROOT/.cache/fuzz-run/$ID-gd-$sub"; rm -rf "$work"; mkdir -p "$work/corpus" "$work/artifacts"
+  # libFuzzer grows inputs slowly from an empty corpus: start from a few full-length random files
+  python3 - "$work/corpus" "$LSEED" "$sub" <<'PY'
+import random, sys
+d, seed, sub = sys.argv[1], sys.argv[2], sys.argv[3]
+r = random.Random(f"{seed}/{sub}")
+for i, n in enumerate([64, 256, 512, 1024, 2048, 4096, 1024, 512]):
+    open(f"{d}/seed{i}", "wb").write(bytes(r.getrandbits(8) for _ in range(n)))
+PY
+  ( cd / && ZV_GD="$ID:$sub" ZV_GD_STATS="$work/stats.json" VERIF_ROOT="$ROOT" "$BIN/gen_driven" "$work/corpus" -runs="$GDRUNS" -seed="$LSEED" -max_len=4096 -len_control=0 \
+      -timeout=120 -rss_limit_mb=6144 -artifact_prefix="$work/artifacts/" -print_final_stats=1 >"$work/log" 2>&1 </dev/null )
+  echo $? > "$work/status"
+}
 for t in $TARGETS; do for mode in seeded empty; do run_one "$t" "$mode" & done; done
+for s in $GD; do run_gd "$s" & done
 wait
 total=0; rc=0
+gd_nt=0; gd_known=0
+for s in $GD; do
+  work="$ROOT/.cache/fuzz-run/$ID-gd-$s"
+  st=$(cat "$work/status" 2>/dev/null || echo 99)
+  n=$(python3 -c "import json,sys; d=json.load(open(sys.argv[1])); print(d['execs'], d['nontrivial'], d['known'], d['skipped'])" "$work/stats.json" 2>/dev/null || echo "0 0 0 0")
+  set -- $n
+  total=$((total + $1)); gd_nt=$((gd_nt + $2)); gd_known=$((gd_known + $3))
+  echo "GD $ID:$s execs=$1 nontrivial=$2 known=$3 skipped=$4 cov=$(grep -a -o 'cov: [0-9]*' "$work/log" | tail -1 | cut -d' ' -f2) corpus=$(ls "$work/corpus" | wc -l)"
+  if [ $st -ne 0 ]; then
+    rp=$(grep -a -m1 -o 'GD-FAIL replay=.*' "$work/log" | cut -d= -f2-)
+    if [ -n "$rp" ]; then
+      echo "VIOLATION property=$ID replay=$rp"
+      echo "  sub-check=$s (coverage-guided): $(grep -a -m1 'GD-MSG' "$work/log" | cut -c8-600)"
+      rc=1
+    elif ls "$work/artifacts"/crash-* >/dev/null 2>&1; then
+      # a crash that is not the oracle's verdict (abort in a dependency, stack overflow): keep the input
+      art=$(ls "$work/artifacts"/crash-* | head -1); mkdir -p "$ROOT/replays/$ID"
+      keep="$ROOT/replays/$ID/fuzz-gd-$s-$(sha1sum "$art" | cut -c1-12)"; cp "$art" "$keep.bin"
+      python3 - "$ID" "$s" "$keep" <<'PY'
+import json, sys
+pid, s, keep = sys.argv[1:4]
+data = open(keep + ".bin", "rb").read()
+json.dump({"property": pid, "sub_check": "fuzz:gen_driven", "gd": f"{pid}:{s}", "artifact": keep + ".bin", "input_hex": data.hex(), "message": "process died outside the oracle (abort / stack overflow) on this generated case"}, open(keep + ".json", "w"), indent=1)
+PY
+      echo "VIOLATION property=$ID replay=$keep.json"; echo "  sub-check=$s (coverage-guided): process died outside the oracle"; rc=1
+    else
+      echo "INFRA: generator-driven campaign $ID:$s stopped abnormally (timeout/oom/other, exit $st) - inconclusive; see $work/log"
+      [ $rc -eq 0 ] && rc=2
+    fi
+  fi
+done
+[ -n "$GD" ] && echo "GD_TOTAL nontrivial=$gd_nt known=$gd_known"
 for t in $TARGETS; do
   for mode in seeded empty; do
     work="$ROOT/.cache/fuzz-run/$ID-$t-$mode"
